@@ -193,7 +193,17 @@ class Table(Selectable):
         if self.alias != other.alias:
             return False
 
+        # Criterion overloads ==, so the temporal clauses are compared through their rendering
+        if self._temporal_sql() != other._temporal_sql():
+            return False
+
         return True
+
+    def _temporal_sql(self) -> TypedTuple[Optional[str], Optional[str]]:
+        return (
+            self._for.get_sql(quote_char='"') if self._for else None,
+            self._for_portion.get_sql(quote_char='"') if self._for_portion else None,
+        )
 
     def __repr__(self) -> str:
         if self._schema:
